@@ -749,7 +749,7 @@ pub fn run(ctx: &Ctx) -> i32 {
             ],
             exhaustive: false,
             extra,
-            min_nontrivial: 1000,
+            min_nontrivial: 100,
         },
     )
 }
